@@ -35,6 +35,10 @@ meta={"id":ID,"property":agent.get("property",ID.split("-")[0]),"summary":agent.
  "demo":f"{demo} ({run}); go test -vet=off -count=1 -run {run} .",
  "confirmed":{"demo_with_change":with_,"demo_without_change":without,"suite_with_change":suite},
  "checks_run":[]}
+try:
+    old=json.load(open(d+"/meta.json"))
+    meta["checks_run"]=old.get("checks_run",[])
+except Exception: pass
 json.dump(meta,open(d+"/meta.json","w"),indent=1)
 print(json.dumps(meta["confirmed"],indent=1))
 PY
